@@ -22,6 +22,7 @@ The count compared with the limit is current: at handler exit the peer leaves th
 The affinity looked up is the one last configured: KnownPeers::insert replaces the whole entry, remove deletes it, nothing else writes the map or edits a PeerInfo in place.
 The limit field is (de)serialised by the plain derived impls (serde attributes read from the source: no hook, no custom default).
 Background dials are held back only by dials in flight (C13.4 re-evaluated).
+The accept arm (like every arm of the manager loop) has no precondition: admission does not depend on the node's own dials in flight.
 """
 TRUSTED = ["KnownPeers is a HashMap<PeerId, PeerInfo> behind a RwLock", "quinn closes a connection whose last handle is dropped"]
 NOT_DECIDED = ["truly simultaneous arrivals (excluded by the property)", "slot accounting over histories beyond `len()` reading the live map",
@@ -249,4 +250,9 @@ def run(cx):
         bad = [v for x in w for v in x.violations]
         ob.require(len(w) == 1 and not bad, "background-dials/only-in-flight-dials-count", "background dialing can be blocked by something else than dials in flight: " + "; ".join(str(v.msg) for v in bad)[:300],
                    "anemo::network::connection_manager::ConnectionManager::handle_connectivity_check")
+
+    with cx.ob("C10.9", "R-STICKY", "admission depends on nothing but affinity, limit and the number of connections: the manager loop accepts incoming connections unconditionally - no select! arm of the loop (the accept arm in particular) is switched off by a condition such as the node's own dials in flight") as ob:
+        lb9 = prog.callers_of(f"{CM}::ConnectionManager::handle_connectivity_check")
+        ob.floor(lb9, 1, "manager loop (caller of handle_connectivity_check)", exact=True)
+        check_no_select_preconditions(ob, prog, lb9[0].body, "manager-loop")
 
